@@ -894,3 +894,15 @@ def _yield_runs_ext(cb):
                    case=_case_name(cb, True), note="extended L2: generator contract at sub-cluster granularity; entries and bitmaps arbitrary; an invalid bitmap raises Error")
     c.select_terms = True
     return c
+
+
+def trusted(pid):
+    import os
+
+    out = ["A3 inflate: QCow2._decompress returns the plaintext of the compressed cluster, a whole cluster for a well-formed image (callee contract of _read_compressed / Inflated(descriptor, offset))",
+           "A6 (well-formed image) mapped host clusters lie inside the data file; L1/L2 tables are total functions of their index (cstruct array reads, lru_cache on l2_table: A3)",
+           "callee contracts used by the read path are the proved ones: index helpers (contracts/qcow2.py, incl. the nested L1 form), get_subcluster_type/range_type, count_contiguous_subclusters, _read_compressed, derived geometry of __init__"]
+    if os.environ.get("VERIF_TIER_EFFECTIVE", "quick") != "thorough":
+        out.append("quick tier only: the per-run contract of _yield_runs for the 8 extended-L2 geometries is assumed by their _read contracts (it is proved in the thorough tier; the bounded block exercises it in both); "
+                   "extended-L2 count_contiguous_subclusters is proved for cluster_bits 14 only (all 8 in the thorough tier); ctz/cto are proved in the thorough tier")
+    return out
